@@ -1,6 +1,7 @@
 package c05
 
 import (
+	"encoding/json"
 	"fmt"
 	"os"
 	"regexp"
@@ -109,4 +110,44 @@ func TestExplore(t *testing.T) {
 		}
 	}
 	fmt.Printf("docs differential cases %d, dropped %d\n", docsChecked.Load(), docsDiscarded.Load())
+}
+
+// TestRegressVerdicts (development aid, VERIF_EXPLORE_REGRESS=1): prints the raw verdict of
+// every saved regression case (before known-finding suppression).
+func TestRegressVerdicts(t *testing.T) {
+	if os.Getenv("VERIF_EXPLORE_REGRESS") == "" {
+		t.Skip()
+	}
+	for _, f := range pbt.RegressFiles("C05") {
+		rf, err := pbt.LoadReplay(f)
+		if err != nil {
+			t.Fatal(err)
+		}
+		var v pbt.Verdict
+		switch rf.Part {
+		case "bytes-total":
+			var c bytesCase
+			if err := json.Unmarshal(rf.Case, &c); err != nil {
+				t.Fatal(f, err)
+			}
+			v = checkBytes(c, &pbt.Rec{})
+		case "docs-roundtrip":
+			var c docCase
+			if err := json.Unmarshal(rf.Case, &c); err != nil {
+				t.Fatal(f, err)
+			}
+			v = checkDoc(c, &pbt.Rec{})
+		case "limits":
+			var c limitsCase
+			if err := json.Unmarshal(rf.Case, &c); err != nil {
+				t.Fatal(f, err)
+			}
+			v = checkLimitsCase(c, &pbt.Rec{})
+		}
+		m := v.Msg
+		if len(m) > 160 {
+			m = m[:160]
+		}
+		fmt.Printf("%-45s [%s] %s\n", f[len("/verif/regress/C05/"):], v.Finding, m)
+	}
 }
